@@ -103,3 +103,60 @@ PROPS["C05"] = {
         {"name": "rapid", "mode": "rapid", "run": "TestC05Rapid", "checks": {"quick": 40000, "thorough": 800000}},
     ],
 }
+
+PROPS["C15"] = {
+    "level": "exploration",
+    "rule": ("(initial map, plugin, device id, device list) drawn by rapid: maps nil / empty / with foreign keys, CDI keys and the very "
+             "key about to be generated; plugin and id strings with every character class at first / middle / last position, combined "
+             "lengths concentrated on 60..66, '/' in the id, non-ASCII, empty; device lists of valid names and near misses. Exhaustive "
+             "part: every (plugin, id) of combined length <= 4 over the alphabet {a Z 0 _ - . / e-acute}, with and without the key already "
+             "used, and every total length 1..70 at every split. Oracle: UpdateAnnotations either fails and the map (argument and result) "
+             "equals the snapshot, or adds exactly one key that has the CDI prefix, is a legal k8s annotation key (model.K8sAnnotationKey), "
+             "was unused, and whose value parses back (ParseAnnotations) to exactly the devices in order; success iff name valid, devices "
+             "all qualified (model.QualifiedName) and key unused. ParseAnnotations on arbitrary maps: CDI keys only, devices = concatenation "
+             "in returned-key order, error with empty results on any unqualified name. Non-trivial iff combined name length in 61..65, "
+             "or a CDI key pre-exists, or success with >= 2 devices; distinct = distinct cases."),
+    "exhaustive_part": "all (plugin, id) with combined length <= 4 over 8 symbols x key used/unused; all lengths 1..70 x all split points",
+    "assumptions": ["a request with valid plugin, id, devices and an unused key must succeed (doc comment of UpdateAnnotations)"],
+    "manifest": {
+        "text": ("Sampling of the (map, plugin, id, devices) space with generators aimed at the 63-character limit and the character "
+                 "classes, plus a complete sweep of short names and of all lengths; both outcomes are checked against independent models "
+                 "of the k8s key syntax and of qualified names, and success is tied to a parse-back round trip."),
+        "note": "trusted: model/names.go (k8s key and qualified-name recognisers)",
+        "technique": "property-based testing: rapid + bounded exhaustive enumeration, round-trip (update then parse) and reference-model oracle",
+    },
+    "health": {"quick": {"name-valid": 2000, "name-invalid": 2000, "key-already-used": 500, "init-nil": 1000, "name-len-63": 200, "name-len-64": 200, "slash-in-id": 500}},
+    "units": [
+        {"name": "regress", "mode": "plain", "run": "TestC15Regress"},
+        {"name": "exhaustive", "mode": "plain", "run": "TestC15Exhaustive", "shards": 4},
+        {"name": "rapid", "mode": "rapid", "run": "TestC15Rapid", "checks": {"quick": 800000, "thorough": 12000000}},
+    ],
+}
+
+PROPS["C09"] = {
+    "level": "exploration",
+    "rule": ("Library-valid Specs (gen.Spec, <= 3 devices, all optional members, numeric extremes of every integer field) whose free string "
+             "fields (env values, paths, hook args/env, mount options/type, RDT schemas, annotation values) are drawn from a hostile "
+             "generator in 7 of 8 cases: a 200-entry dictionary of YAML/JSON-sensitive spellings (yes, ~, 0123, 1_000, 2001-12-14, "
+             "indicators in first position, blanks, every placement of line breaks, ---, NUL, C0, DEL, C1, NEL, U+00A0, U+2028/9, BOM, "
+             "non-characters, non-BMP), strings over a 40-rune hostile alphabet, dictionary words embedded in text, rapid.String(). "
+             "Each Spec is written with Cache.WriteSpec under x.json, x.yaml and an extension-less name; oracle: every file reads back "
+             "(ReadSpec) to a Spec whose JSON image equals the original's, the JSON and YAML files load equal, and a cache over the "
+             "directory lists the same devices with equal definitions. The dictionary unit places every dictionary string (5 embeddings) "
+             "in all string fields at once. A Spec refused by WriteSpec is not a C09 case (counted under label rejected-for-writing). "
+             "Non-trivial iff some string is outside [A-Za-z0-9_./=-]* or an integer extreme is present; distinct = distinct Specs."),
+    "assumptions": ["strings are valid UTF-8 (the statement's domain)", "canonical image = encoding/json of specs.Spec (nil and empty lists equal)"],
+    "manifest": {
+        "text": ("Round trip of generated Specs through the real writer and reader in both encodings and through a cache, with string "
+                 "generators aimed at YAML/JSON-sensitive spellings and all numeric extremes. Sampling only: a string class absent "
+                 "from the dictionary/alphabet is reached only through rapid.String()."),
+        "note": "trusted: encoding/json as canonical image of a Spec; the generator's notion of a valid Spec (shared with C05)",
+        "technique": "property-based testing: write/read round trip, JSON-vs-YAML differential, cache differential",
+    },
+    "health": {"quick": {"written": 3000, "str:line-break": 300, "str:del-or-c1": 100, "str:yaml-keyword": 100, "str:c0-control": 100}},
+    "units": [
+        {"name": "regress", "mode": "plain", "run": "TestC09Regress"},
+        {"name": "dictionary", "mode": "plain", "run": "TestC09Dictionary", "shards": 4},
+        {"name": "rapid", "mode": "rapid", "run": "TestC09Rapid", "checks": {"quick": 24000, "thorough": 480000}},
+    ],
+}
